@@ -275,6 +275,29 @@ pub fn random_behaviour(r: &mut Rng, t: &mut Trace, steps: usize) {
             let s1 = r.bits128(b1);
             let op = op_provide(&w, i, "alice", s0, s1, nul(), nul());
             t.run(&mut w, op);
+        } else {
+            // the pair is left without liquidity; half of the time a third party sends both assets straight to it
+            // (reserves 1:4, LP supply still zero) and the first provisions carry a tolerance: off the donated
+            // ratio (to be refused by the guard), then on it
+            if r.chance(1, 2) {
+                let (a0, a1) = pair_infos(&w, i);
+                let paddr = w.pairs[i].addr.clone();
+                let base = 1000 + r.below(1 << 20) as u128;
+                for (info, amount) in [(a0.clone(), base), (a1.clone(), base * 4)] {
+                    let op = if is_native(&info) {
+                        json!({"op": "bank_send", "caller": "bob", "dest": paddr, "coins": [[id_of(&info), st(amount)]]})
+                    } else {
+                        json!({"op": "cw20_transfer", "token": id_of(&info), "caller": "bob", "dest": paddr, "amount": st(amount)})
+                    };
+                    t.run(&mut w, op);
+                }
+                let tol = st(*r.pick(&[D18 / 100, D18 / 1000, D18 / 10]));
+                let d = 5000 + r.below(1 << 20) as u128;
+                for (d0, d1) in [(d, d), (d, d * 16), (d, d * 4)] {
+                    let op = op_provide(&w, i, "alice", d0, d1, tol.clone(), nul());
+                    t.run(&mut w, op);
+                }
+            }
         }
     }
     // one more pair created inside the observed history, with an explicit commission rate (zero every other time):
